@@ -6,6 +6,7 @@
 #include <errno.h>
 #include <fcntl.h>
 #include <ftw.h>
+#include <grp.h>
 #include <stdbool.h>
 #include <stdio.h>
 #include <stdlib.h>
@@ -50,4 +51,6 @@ void rm_rf(const char *path);
 
 int drv_set(void);
 int drv_linq(void);
+int drv_sieve(void);
+int drv_world(void);
 #endif
